@@ -4,6 +4,6 @@
 S=$1; shift
 exec 9>/var/tmp/verif-repo.lock; flock 9
 git -C /repo apply /verif/seeded/$S/patch.diff || exit 3
-for c in "$@"; do /verif/check $c 2>&1 | tail -${TAILN:-6}; done
+for c in "$@"; do /verif/check $c --tier ${TIER:-quick} 2>&1 | tail -${TAILN:-6}; done
 git -C /repo apply -R /verif/seeded/$S/patch.diff
 git -C /repo status --short | grep -v _build
